@@ -96,6 +96,8 @@ def _judge_plane(G, mu, Pobj, pd, key):
     if exc is not None:
         mu.fail(key + ":general_form-raises-" + M.classify_exc(exc), "general_form() raised %r" % exc)
     else:
+        if imp:
+            mu.fail(key + ":general_form-modifies-the-plane", "general_form() changed the plane: " + imp)
         Q, exc, _ = M.call(lambda t: G.Plane(*t), res, pure=False)
         if exc is not None:
             mu.fail("%s:Plane(*general_form)-raises-%s/zero-%s" % (key, M.classify_exc(exc), _zp(n)),
@@ -107,6 +109,8 @@ def _judge_plane(G, mu, Pobj, pd, key):
     if exc is not None:
         mu.fail(key + ":point_normal-raises-" + M.classify_exc(exc), "point_normal() raised %r" % exc)
     else:
+        if imp:
+            mu.fail(key + ":point_normal-modifies-the-plane", "point_normal() changed the plane: " + imp)
         Q, exc, _ = M.call(lambda t: G.Plane(G.Point(t[0]), t[1]), res, pure=False)
         if exc is not None:
             mu.fail(key + ":Plane(point_normal)-raises-" + M.classify_exc(exc), "Plane(Point(p), n) raised %r" % exc)
@@ -114,6 +118,8 @@ def _judge_plane(G, mu, Pobj, pd, key):
             _plane_eq(mu, G, "Plane(Point(p), n)", Q, Pobj, pd, key + ":point-normal-roundtrip")
     # parametric
     res, exc, imp = M.call(lambda p: p.parametric(), Pobj)
+    if exc is None and (imp or len(getattr(Pobj.n, "_v", [0, 0, 0])) != 3):
+        mu.fail(key + ":parametric-modifies-the-plane", "parametric() changed the plane: %s" % (imp or "normal has %d components" % len(Pobj.n._v)))
     if exc is not None:
         mu.fail("%s:parametric-raises-%s/zero-%s" % (key, M.classify_exc(exc), _zp(n)),
                 "P.parametric() raised %s: %s for normal %s" % (type(exc).__name__, exc, C.show_short(n)))
